@@ -148,6 +148,21 @@ def run(chk, repo):
                 raise AnalysisError(f"anchor vanished: record {fname} in {_name(key)}")
             s, e = spans[fname]
             size = e - s
+            if size.has_func_atoms():
+                # max()/min() in a padding expression: not a polynomial - decide on every admissible count
+                syms = size.plain_symbols()
+                dom = {"data_quality_summary.number_of_channels": range(1, 17)}
+                if len(syms) != 1 or syms[0] not in dom:
+                    raise AnalysisError(f"{fname}: size {size} is piecewise in {syms}, for which no finite domain is stated")
+                bad = []
+                for n in dom[syms[0]]:
+                    v = size.subs({syms[0]: n})
+                    if not (v.is_const() and v.value() == want):
+                        bad.append((n, str(v)))
+                chk.require(not bad, "C05-F2", f"{where}.{fname}", f"size {size} == {want} for every {syms[0]} in {dom[syms[0]].start}..{dom[syms[0]].stop - 1}",
+                            f"size {size} is not {want} for {syms[0]} = {[b[0] for b in bad]} (e.g. {bad[0][1] if bad else ''}): every record after {fname} is decoded from shifted bytes",
+                            key=f"{key}:{fname}:fixed", sample={"record": fname, "size": str(size)})
+                continue
             chk.require(
                 size == lift(want), "C05-F2", f"{where}.{fname}",
                 f"static size {size} == {want} for every value of every count field",
@@ -241,7 +256,7 @@ def _domains(chk, L):
     expected_dyn = 0
     for lf in dyn:
         w = lf.width
-        syms = w.symbols()
+        syms = w.plain_symbols()
         where = f"sar_leader_record.{lf.name}"
         if lf.name == "attitude.blanks" or (len(syms) == 2 and "attitude.number_of_points" in syms):
             Lsym = "attitude.preamble.record_length"
@@ -284,9 +299,11 @@ def _domains(chk, L):
             chk.fail("C05-F4", where, f"dynamic width {w} depends on symbols with no stated domain {syms}", key=f"leader:{lf.name}:unknown-domain")
     # the data-quality record as a whole must not depend on the channel count (=F2) -- and at
     # least one of its paddings must go negative right after 16 channels
-    dq = [lf for lf in dyn if lf.width.symbols() == ["data_quality_summary.number_of_channels"]]
+    dq = [lf for lf in dyn if lf.width.plain_symbols() == ["data_quality_summary.number_of_channels"]]
     if dq:
         neg = [lf for lf in dq if lf.width.subs({"data_quality_summary.number_of_channels": 17}).value() < 0]
+        if any(lf.width.has_func_atoms() for lf in dq):
+            neg = dq  # clamped paddings never go negative; the record size identity (F2) decides instead
         chk.require(
             bool(neg), "C05-F4", "sar_leader_record.data_quality_summary",
             "channel count 17 is rejected (a padding becomes negative): upper bound 16 is enforced by the layout",
